@@ -36,7 +36,37 @@ def utmp_bytes(recs):
     return out
 
 
+def run_utmp_threads(case):
+    """users() from several threads at once over a long login file: every call
+    must give what a single-threaded call gives."""
+    import threading
+    recs = [{"type": ("USER", "USER", "DEAD")[i % 3], "user": "short", "line": "short", "host": ("short", "colon0")[i % 2]}
+            for i in range(case["n"])]
+    with open("/run/utmp", "wb") as f:
+        f.write(utmp_bytes(recs))
+
+    def snap():
+        return [(r.name, r.terminal, r.host, r.started, r.pid) for r in psutil.users()]
+    ref = snap()
+    diff = []
+
+    def body():
+        for _ in range(case["calls"]):
+            got = snap()
+            if got != ref:
+                diff.append((len(got), len(ref)))
+    ts = [threading.Thread(target=body) for _ in range(case["threads"])]
+    for t in ts:
+        t.start()
+    for t in ts:
+        t.join()
+    return {"threads": case["threads"], "calls": case["threads"] * case["calls"], "reference_rows": len(ref),
+            "differing": len(diff), "first": diff[:1]}
+
+
 def run_utmp(case):
+    if case.get("threads"):
+        return run_utmp_threads(case)
     with open("/run/utmp", "wb") as f:
         f.write(utmp_bytes(case["recs"]))
     rows = psutil.users()
@@ -52,6 +82,8 @@ def esc(s):
 
 
 def opts_of(kind):
+    if kind == "badutf8":
+        return "rw,lowerdir=/srv/caf\udce9,relatime"       # written with surrogateescape: the byte 0xE9
     if kind != "long":
         return "rw,relatime"
     s = "rw,lowerdir=" + ":".join("/var/lib/layers/%04d" % i for i in range(200))
@@ -62,11 +94,20 @@ def run_mounts(case, root):
     os.makedirs(os.path.join(root, "self"), exist_ok=True)
     with open(os.path.join(root, "filesystems"), "w") as f:
         f.write("\text4\nnodev\ttmpfs\nnodev\tzfs\nnodev\tproc\n")
-    with open(os.path.join(root, "self", "mounts"), "w") as f:
+    with open(os.path.join(root, "self", "mounts"), "w", encoding="utf8", errors="surrogateescape") as f:
         for e in case["ents"]:
             f.write("%s %s %s %s 0 0\n" % (esc(e["dev"]), esc(DIRS[e["dir"]]), e["type"], opts_of(e.get("opts"))))
     psutil.PROCFS_PATH = root
     try:
+        if any(e.get("opts") == "badutf8" for e in case["ents"]):
+            # (several times: an error path that frees once too often shows on the repeat)
+            out = None
+            for _ in range(4):
+                try:
+                    out = {"class": "value", "rows": len(psutil.disk_partitions(all=case["all"]))}
+                except Exception as ex:  # noqa: BLE001
+                    out = {"class": "exception", "repr": repr(ex)[:120]}
+            return out
         rows = psutil.disk_partitions(all=case["all"])
     finally:
         psutil.PROCFS_PATH = "/proc"
